@@ -1,3 +1,292 @@
-import OrixModel.XMap
+import OrixProofs.Lemmas.XMapInv
+/-
+C12 — crystal-map phase bookkeeping stays consistent.
+
+Model: `OrixModel/PhaseList.lean` (`PhaseList._dict` as an insertion-ordered dictionary that the methods
+re-sort) and `OrixModel/XMap.lean` (`Sys`: the full-size arrays, the phase list and the masks of a map and
+of all selections made from it; `init` = `CrystalMap.__init__`, `step` = one operation).
+
+Invariant `Inv s` (`Lemmas/XMapInv.lean`): phase ids strictly ascending (hence unique); every phase id of
+every original point has an entry; an entry has id -1 iff it is called "not_indexed"; no id below -1.
+It is stated over *all* original points, so it holds for the root map and for every selection.
+Admissibility (`XMap.admissible`, decidable): assigned ids are -1 or already in the list, a deleted phase is
+not in use, no added phase is called "not_indexed".
+
+Only property theorems and non-vacuity examples live in this file.
+-/
 namespace Orix.C12
+open Orix Orix.XMap
+
+/-! ### the invariant holds after construction … -/
+
+/-- … without a phase list, for every phase-id array (ids ≥ -1), grid, properties and mask -/
+theorem inv_init_none (g : Grid) (pid : Nat → Int) (props : List (String × (Nat → Int))) (mask : Mask)
+    (hlow : ∀ p, p < g.size → -1 ≤ pid p) : Inv (init g pid none props mask) :=
+  inv_init_none' g pid props mask hlow
+
+/-- … with any caller phase list (fewer, as many or more phases than ids, any ids) that has pairwise
+distinct ids — every `PhaseList` has, see `constructor_forms_sorted` — and no phase called "not_indexed".
+This is the code as it is, hence `_partial`: the full statement (any caller list in which -1 and only -1 is
+"not_indexed") FAILS for the code, see `init_relinks_not_indexed`, and holds for the repaired constructor,
+see `inv_initFixed`. -/
+theorem inv_init_some_partial (g : Grid) (pid : Nat → Int) (pl : PhaseList)
+    (props : List (String × (Nat → Int))) (mask : Mask) (hlow : ∀ p, p < g.size → -1 ≤ pid p)
+    (hnd : (PhaseList.ids pl).Nodup) (hnames : ∀ e ∈ pl, e.2.name ≠ "not_indexed") :
+    Inv (init g pid (some pl) props mask) :=
+  inv_init_some' g pid pl props mask hlow hnd hnames
+
+/-- proved counter-example (finding C12-constructor-relinks-not-indexed): the caller's list
+{-1: not_indexed, 0: a, 1: b} and data ids 0, 1, 2 give {0: not_indexed, 1: a, 2: b} -/
+theorem init_relinks_not_indexed :
+    (init ⟨1, 3⟩ (fun p => p) (some witnessCallerList) [] (fun _ => true)).phases
+      = [(0, Phase.notIndexed), (1, ⟨"a", some "m-3m", 1⟩), (2, ⟨"b", some "432", 2⟩)] ∧
+    ¬ Inv (init ⟨1, 3⟩ (fun p => p) (some witnessCallerList) [] (fun _ => true)) := by
+  have h : (init ⟨1, 3⟩ (fun p => p) (some witnessCallerList) [] (fun _ => true)).phases
+      = [(0, Phase.notIndexed), (1, ⟨"a", some "m-3m", 1⟩), (2, ⟨"b", some "432", 2⟩)] := by decide
+  refine ⟨h, fun hinv => ?_⟩
+  have := (hinv.pl.notIdx (0, Phase.notIndexed) (by rw [h]; simp)).2 rfl
+  simp at this
+
+/-- the constructor with the proposed repair (drop the caller's -1 entry first) establishes the invariant for
+every caller list with distinct ids in which only id -1 may be called "not_indexed" -/
+theorem inv_initFixed (g : Grid) (pid : Nat → Int) (pl : PhaseList) (props : List (String × (Nat → Int)))
+    (mask : Mask) (hlow : ∀ p, p < g.size → -1 ≤ pid p) (hnd : (PhaseList.ids pl).Nodup)
+    (hwf : ∀ e ∈ pl, e.2.name = "not_indexed" → e.1 = -1) :
+    Inv (initFixed g pid (some pl) props mask) := by
+  unfold initFixed
+  simp only [Option.map_some]
+  apply inv_init_some' g pid _ props mask hlow
+  · exact hnd.sublist ((List.filter_sublist).map _)
+  · intro e he hname
+    have := List.mem_filter.1 he
+    have hid := hwf e this.1 hname
+    simp [hid] at this
+
+/-- every constructor form of `PhaseList` (list, dict, single phase, keyword lists with padding) yields
+strictly ascending — hence unique — ids -/
+theorem constructor_forms_sorted :
+    (∀ phases is, (PhaseList.ids (PhaseList.ofList phases is)).Pairwise (· < ·)) ∧
+    (∀ es, (PhaseList.ids (PhaseList.ofDict es)).Pairwise (· < ·)) ∧
+    (∀ p i, (PhaseList.ids (PhaseList.ofSingle p i)).Pairwise (· < ·)) ∧
+    (∀ names sgs pgs is tags d, PhaseList.ofKeywords names sgs pgs is tags = some d →
+      (PhaseList.ids d).Pairwise (· < ·)) :=
+  ⟨PhaseList.sorted_ofList, PhaseList.sorted_ofDict, PhaseList.sorted_ofSingle, PhaseList.sorted_ofKeywords⟩
+
+/-- **linking rule of the constructor**: the map's phase list has exactly one phase per non-negative id of
+the data (`uniq`, ascending), and every phase is one of the caller's or a default phase … -/
+theorem constructor_linking_rule (uniq : List Int) (pl : PhaseList) (hu : uniq.Pairwise (· < ·))
+    (hpl : (PhaseList.ids pl).Nodup) :
+    PhaseList.ids (reconcile uniq pl) = uniq ∧
+      ∀ e ∈ reconcile uniq pl, e.2 = Phase.dflt ∨ ∃ f ∈ pl, f.2 = e.2 :=
+  reconcile_spec uniq pl hu hpl
+
+/-- … with as many phases as ids they are linked by position in the list, not by id -/
+theorem constructor_links_by_order (uniq : List Int) (pl : PhaseList) (hu : uniq.Pairwise (· < ·))
+    (hlen : pl.length = uniq.length) : reconcile uniq pl = uniq.zip (pl.map (·.2)) := by
+  have hl : (PhaseList.ids pl).length = uniq.length := by simpa [PhaseList.ids] using hlen
+  unfold reconcile
+  simp only [hl, gt_iff_lt, lt_self_iff_false, if_false]
+  apply PhaseList.ofPairs_of_nodup
+  rw [List.map_fst_zip (by simp [hlen])]
+  exact PhaseList.nodup_of_sorted hu
+
+/-! ### … and is preserved by every admissible operation, hence along every finite history -/
+
+theorem inv_preserved (s : Sys) (h : Inv s) (o : Op) (ha : admissible s o = true) : Inv (step s o).1 :=
+  inv_step h o ha
+
+theorem inv_history (s : Sys) (h : Inv s) (os : List Op) (ha : admissibleAll s os = true) :
+    Inv (runOps s os) :=
+  inv_runOps h os ha
+
+/-- constructor followed by any admissible history -/
+theorem inv_init_history (g : Grid) (pid : Nat → Int) (props : List (String × (Nat → Int))) (mask : Mask)
+    (hlow : ∀ p, p < g.size → -1 ≤ pid p) (os : List Op)
+    (ha : admissibleAll (init g pid none props mask) os = true) :
+    Inv (runOps (init g pid none props mask) os) :=
+  inv_runOps (inv_init_none' g pid props mask hlow) os ha
+
+/-- what the invariant says for one selection: every phase id held by a point of the selection has an entry -/
+theorem selection_ids_in_list (s : Sys) (h : Inv s) (m : Mask) :
+    ∀ i ∈ (ids s.n m).map s.phaseId, i ∈ PhaseList.ids s.phases := by
+  intro i hi
+  obtain ⟨p, hp, rfl⟩ := List.mem_map.1 hi
+  exact h.covers p (mem_ids.1 hp).1
+
+/-! ### phases in data -/
+
+/-- with the proposed repair `phases_in_data` returns exactly the entries whose id is present in the
+selection, and their ids are exactly the ids present (ascending, once each) -/
+theorem phasesInData_exact_fixed (s : Sys) (h : Inv s) (m : Mask) (hne : ids s.n m ≠ []) :
+    phasesInDataFixed s m = .ok (phasesInDataSpec s m) ∧
+      PhaseList.ids (phasesInDataSpec s m) = uniqueSorted ((ids s.n m).map s.phaseId) :=
+  ⟨phasesInDataFixed_eq h hne, ids_spec h m⟩
+
+/-- the code as it is: the same, *provided* names identify phases (`_partial`: without that proviso the
+statement FAILS, see `phasesInData_wrong_id`) -/
+theorem phasesInData_exact_partial (s : Sys) (h : Inv s) (m : Mask) (hne : ids s.n m ≠ [])
+    (hnames : ∀ e ∈ s.phases, ∀ f ∈ s.phases, e.2.name = f.2.name → e = f) :
+    phasesInData s m = .ok (phasesInDataSpec s m) :=
+  phasesInData_eq_of_names h hne hnames
+
+/-- proved counter-example (finding C12-phases-in-data-id-by-name): two unnamed phases 0 and 1, the
+selection holds only id 1, `phases_in_data` lists id 0 -/
+theorem phasesInData_wrong_id :
+    Inv witnessTwoUnnamed ∧
+    (ids 3 (fun p => p != 0)).map witnessTwoUnnamed.phaseId = [1, 1] ∧
+    phasesInData witnessTwoUnnamed (fun p => p != 0) = .ok [(0, Phase.dflt)] ∧
+    phasesInDataFixed witnessTwoUnnamed (fun p => p != 0) = .ok [(1, Phase.dflt)] := by
+  refine ⟨inv_init_none' _ _ _ _ (by intro p _; by_cases h : p = 0 <;> simp [h]), ?_, ?_, ?_⟩ <;> decide
+
+/-- **orientations**: whenever `orientations` is defined for a selection, all its points have the same phase
+id and the symmetry is the point group of the phase stored under that id (also for the code as it is: the
+id reported by `phases_in_data` may be wrong, the phase object is not) -/
+theorem single_phase_orientations_symmetry (s : Sys) (h : Inv s) (m : Mask) (sy : Option String)
+    (ho : orientationsSym s m = .ok sy) :
+    ∃ i p, (i, p) ∈ s.phases ∧ p.sym = sy ∧ ∀ q ∈ ids s.n m, s.phaseId q = i :=
+  orientationsSym_spec h ho
+
+/-! ### phase-list operations -/
+
+/-- adding a phase whose name is already present is rejected, and nothing is added -/
+theorem add_rejects_duplicate_name (d : PhaseList) (p : Phase) (ps : List Phase)
+    (h : p.name ∈ PhaseList.names d) : PhaseList.add d (p :: ps) = (d, some .duplicateName) :=
+  PhaseList.add_rejects d p ps h
+
+/-- `add` never produces two phases with one name (a name repeated inside the added list is rejected too) -/
+theorem add_keeps_names_unique (d : PhaseList) (ps : List Phase) (hn : (PhaseList.names d).Nodup)
+    (hi : (PhaseList.ids d).Nodup) : (PhaseList.names (PhaseList.add d ps).1).Nodup :=
+  PhaseList.names_nodup_add ps d hn hi
+
+/-- ids stay strictly ascending under add, delete, add_not_indexed, sort (the phase-list part of
+`inv_preserved`, for lists on their own) -/
+theorem phaselist_ops_keep_sorted (d : PhaseList) (h : PhaseList.PLInv d) :
+    (∀ ps, (∀ p ∈ ps, p.name ≠ "not_indexed") → PhaseList.PLInv (PhaseList.add d ps).1) ∧
+    PhaseList.PLInv (PhaseList.addNotIndexed d) ∧
+    PhaseList.sortById d = d ∧
+    (∀ i, PhaseList.PLInv (d.filter fun e => !(e.1 == i))) :=
+  ⟨fun ps hps => (PhaseList.plinv_add h ps hps).1, (PhaseList.plinv_addNotIndexed h).1,
+   PhaseList.plinv_sortById_eq h, fun _ => PhaseList.plinv_filter h _⟩
+
+/-- indexing by id, list, tuple or array of ids returns exactly the phases with those ids … -/
+theorem getitem_exact_ids (d r : PhaseList) (hs : (PhaseList.ids d).Pairwise (· < ·)) (l : List Int)
+    (h : PhaseList.getItem d (.idList l) = .ok r) :
+    (∀ e, e ∈ r ↔ e ∈ d ∧ e.1 ∈ l) ∧ (∀ k ∈ l, k ∈ PhaseList.ids d) ∧ r.Sublist d ∧
+      (PhaseList.ids r).Pairwise (· < ·) :=
+  PhaseList.getItem_idList_ok hs l h
+
+/-- … fails only for a missing id (or an empty request) … -/
+theorem getitem_ids_error (d : PhaseList) (l : List Int) (e : XErr)
+    (h : PhaseList.getItem d (.idList l) = .error e) :
+    e = .keyError ∧ (l = [] ∨ ∃ k ∈ l, k ∉ PhaseList.ids d) :=
+  PhaseList.getItem_idList_error l e h
+
+/-- … and indexing by name(s) returns exactly the phases with those names, `KeyError` iff there is none -/
+theorem getitem_exact_names (d r : PhaseList) (hs : (PhaseList.ids d).Pairwise (· < ·)) (l : List String)
+    (h : PhaseList.getItem d (.nameList l) = .ok r) :
+    (∀ e, e ∈ r ↔ e ∈ d ∧ e.2.name ∈ l) ∧ r.Sublist d ∧ (PhaseList.ids r).Pairwise (· < ·) ∧ r ≠ [] :=
+  PhaseList.getItem_nameList_ok hs l h
+
+theorem getitem_names_error (d : PhaseList) (l : List String) (e : XErr)
+    (h : PhaseList.getItem d (.nameList l) = .error e) : e = .keyError ∧ ∀ f ∈ d, f.2.name ∉ l :=
+  PhaseList.getItem_nameList_error l e h
+
+/-! ### assignment through a selection changes exactly the selected points -/
+
+/-- `xmap[...].phase_id = value`: points outside the selection keep their phase id, every other array, the
+property dictionary and all selections are untouched; if the assignment raises nothing changed -/
+theorem assignment_through_selection_frame (s : Sys) (v : Nat) (val : Value) :
+    let s' := (step s (.setPhaseId v val)).1
+    s'.props = s.props ∧ s'.views = s.views ∧ s'.grid = s.grid ∧
+    (∀ m, s.views[v]? = some m → ∀ p, p ∉ ids s.n m → s'.phaseId p = s.phaseId p) ∧
+    ((step s (.setPhaseId v val)).2 ≠ none → s' = s) := by
+  intro s'
+  cases hv : s.views[v]? with
+  | none => simp [s', step, hv]
+  | some m =>
+    cases has : assign (ids s.n m) s.phaseId val with
+    | error e => simp [s', step, hv, has]
+    | ok pid' =>
+      refine ⟨by simp [s', step, hv, has], by simp [s', step, hv, has], by simp [s', step, hv, has], ?_, ?_⟩
+      · intro m' hm' p hp
+        simp only [Option.some.injEq] at hm'
+        subst hm'
+        have : s'.phaseId = pid' := by simp [s', step, hv, has]
+        rw [this]
+        exact assign_frame has hp
+      · simp [step, hv, has]
+
+/-- a scalar value reaches every selected point -/
+theorem assignment_scalar_selected (s : Sys) (v : Nat) (x : Int) (m : Mask) (hv : s.views[v]? = some m) :
+    ∀ p ∈ ids s.n m, (step s (.setPhaseId v (.scalar x))).1.phaseId p = x := by
+  intro p hp
+  simp [step, hv, assign, hp]
+
+/-- `xmap[...].prop[name] = value`: phase ids, phase list and selections untouched; the values of the named
+property at points outside the selection are unchanged (0 for a property that did not exist), all other
+properties are unchanged -/
+theorem prop_assignment_frame (s : Sys) (v : Nat) (nm : String) (val : Value) :
+    let s' := (step s (.setProp v nm val)).1
+    s'.phases = s.phases ∧ s'.phaseId = s.phaseId ∧ s'.views = s.views ∧
+    (∀ k a, k ≠ nm → (k, a) ∈ s.props → (k, a) ∈ s'.props) := by
+  intro s'
+  obtain ⟨h1, h2, _, h4⟩ := step_setProp_fields s v nm val
+  refine ⟨h1, h2, h4, ?_⟩
+  intro k a hk hmem
+  cases hv : s.views[v]? with
+  | none => simpa [s', step, hv] using hmem
+  | some m =>
+    have hmem0 : (k, a) ∈ (if (s.props.lookup nm).isSome then s.props
+        else s.props ++ [(nm, match s.props.lookup nm with | some a => a | none => fun _ => 0)]) := by
+      split
+      · exact hmem
+      · exact List.mem_append_left _ hmem
+    simp only [s', step, hv]
+    split
+    · exact hmem0
+    · refine List.mem_map.2 ⟨(k, a), hmem0, ?_⟩
+      have : ((k, a).1 == nm) = false := by simpa using hk
+      simp [this]
+
+/-- … and the named property itself: after a successful assignment it holds the old array (zeros for a
+property that did not exist) overwritten at the selected points only -/
+theorem prop_assignment_values (s : Sys) (v : Nat) (nm : String) (val : Value) (m : Mask)
+    (hv : s.views[v]? = some m) (a' : Nat → Int) (has : assign (ids s.n m) (propOld s.props nm) val = .ok a') :
+    (step s (.setProp v nm val)).1.props.lookup nm = some a' ∧
+      ∀ p, p ∉ ids s.n m → a' p = propOld s.props nm p :=
+  setProp_result s v nm val m hv a' has
+
+/-- a selection never touches its source: arrays, properties, phase list and all existing selections stay
+as they are; the new selection (if the key is valid) is appended -/
+theorem selection_leaves_source_unchanged (s : Sys) (v : Nat) (k : Key) :
+    let s' := (step s (.select v k)).1
+    s'.phases = s.phases ∧ s'.phaseId = s.phaseId ∧ s'.props = s.props ∧ s'.grid = s.grid ∧
+      (s'.views = s.views ∨ ∃ m', s'.views = s.views ++ [m']) := by
+  intro s'
+  obtain ⟨h1, h2, h3, h4⟩ := step_select_fields s v k
+  refine ⟨h1, h2, h4, h3, ?_⟩
+  cases hv : s.views[v]? with
+  | none => left; simp [s', step, hv]
+  | some m =>
+    cases hg : getItem s.base m k with
+    | ok m' => right; exact ⟨m', by simp [s', step, hv, hg]⟩
+    | error e => left; simp [s', step, hv, hg]
+
+/-! ### non-vacuity -/
+
+example : Inv (init ⟨2, 2⟩ (fun p => if p = 0 then -1 else 5) none [] (fun _ => true)) :=
+  inv_init_none _ _ _ _ (by intro p _; by_cases h : p = 0 <;> simp [h])
+example : (init ⟨2, 2⟩ (fun p => if p = 0 then -1 else 5) none [] (fun _ => true)).phases
+    = [(-1, Phase.notIndexed), (5, Phase.dflt)] := by decide
+example : admissibleAll witnessTwoUnnamed
+    [.select 0 (.idx [.slice (some 1) none none]), .setPhaseId 1 (.scalar (-1)), .plAdd [⟨"c", none, 3⟩],
+     .plDel (.id 2)] = true := by decide
+example : (runOps witnessTwoUnnamed
+    [.select 0 (.idx [.slice (some 1) none none]), .setPhaseId 1 (.scalar (-1)), .plAdd [⟨"c", none, 3⟩],
+     .plDel (.id 2)]).phases = [(-1, Phase.notIndexed), (0, Phase.dflt), (1, Phase.dflt)] := by decide
+example : PhaseList.ofKeywords (some ["a", "b", "c"]) none (some [some "432"]) (some [5, 1]) none
+    = some [(1, ⟨"b", none, 0⟩), (5, ⟨"a", some "432", 0⟩), (6, ⟨"c", none, 0⟩)] := by decide
+example : reconcile [2, 42] [(0, ⟨"p", none, 1⟩), (1, ⟨"q", none, 2⟩), (2, ⟨"r", none, 3⟩)]
+    = [(2, ⟨"p", none, 1⟩), (42, ⟨"r", none, 3⟩)] := by decide
+
 end Orix.C12
